@@ -368,7 +368,7 @@ func runConc(f lib.Flags, res *lib.Result, drv *lib.Driver) {
 		nt := 2 + rng.Intn(3)
 		var names []string
 		for t := 0; t < nt; t++ {
-			names = append(names, []string{"a", "a", "a", "b", "~"}[rng.Intn(5)])
+			names = append(names, []string{"a", "a", "a", "b", "~", "n1", "a1", "a2", "n6"}[rng.Intn(9)])
 		}
 		var s []string
 		for t := 0; t < nt; t++ {
